@@ -208,18 +208,18 @@ pub fn c02_references(ctx: &Ctx, ws: &WorkspaceSpec, info: &mut CaseInfo) -> Out
                 continue;
             }
             info.nontrivial = true;
-            for (what, col) in [("function name", d.start), ("self-named parameter", u.start)] {
+            for (what, qline, col) in [("function name", d.line, d.start), ("self-named parameter", u.line, u.start)] {
                 info.checks += 1;
                 // the definition this position concerns, per the library on the same tree
                 let target = if what == "function name" {
                     crate::snapshot::all_defs(&p.twin).into_iter().find(|x| x.file_path == Path::new(&path) && x.line == d.line && x.name == d.name)
                 } else {
-                    p.twin.find_fixture_definition(Path::new(&path), (d.line - 1) as u32, col as u32)
+                    p.twin.find_fixture_definition(Path::new(&path), (qline - 1) as u32, col as u32)
                 };
                 let Some(target) = target else { continue };
                 let resp = match p.req(
                     "textDocument/references",
-                    json!({"textDocument": {"uri": crate::lsp::uri_of(&path)}, "position": {"line": d.line - 1, "character": col}, "context": {"includeDeclaration": true}}),
+                    json!({"textDocument": {"uri": crate::lsp::uri_of(&path)}, "position": {"line": qline - 1, "character": col}, "context": {"includeDeclaration": true}}),
                 ) {
                     Ok(v) => v,
                     Err(i) => return infra_outcome(i, &ctx.inconclusive),
